@@ -20,7 +20,7 @@ CHECKS["C14"] = (
  "DESIGN.md §4 C14")
 CHECKS["C16"] = (
  "differential monitors against regexp, net/url, encoding/base64, mime and byte-wise references, canaries on in-place regions (runtime monitoring)",
- "{Q} (quick) / {T} (thorough) cases around the syntax boundaries of Number, Dimension, EncodeURL/DecodeURL, DataURI, Mediatype, EqualFold/ToLower/TrimWhitespace/IsAllWhitespace and the css/html hash tables (all 256 byte values, every constant, near-miss non-members). Held on what was observed.",
+ "{Q} (quick) / {T} (thorough) cases around the syntax boundaries of Number, Dimension, EncodeURL/DecodeURL (both built-in tables and three caller-owned tables), DataURI, Mediatype, EqualFold/ToLower/TrimWhitespace/IsAllWhitespace and the css/html hash tables (all 256 byte values, every constant, near-miss non-members). Held on what was observed.",
  "Mediatype compared with mime only on generated well-formed lower-case unquoted values; DecodeURL with url.QueryUnescape only where that succeeds. Trusts the standard library references.",
  "DESIGN.md §4 C16")
 CHECKS["C17"] = (
@@ -30,7 +30,7 @@ CHECKS["C17"] = (
  "DESIGN.md §4 C17")
 CHECKS["C19"] = (
  "reference-model monitor (bytes.Reader + encoding/binary) over typed write/read scripts on eight backends with truncation at every byte, Go race detector for parallel ReadAt (runtime monitoring)",
- "{Q} (quick) / {T} (thorough) cases: BinaryWriter bytes compared with encoding/binary, every read on every backend compared with a model {data,pos,eof}, Seek compared with bytes.Reader for all (whence, target), Read/ReadAt io contracts, Bitmap round trip and 8*len bits, and goroutines doing parallel ReadAt on one reader and on clones under the -race build. Held on what was observed.",
+ "{Q} (quick) / {T} (thorough) cases: BinaryWriter bytes compared with encoding/binary, every read on every backend compared with a model {data,pos,eof}, Seek compared with bytes.Reader for all (whence, target), Read/ReadAt io contracts, clones inherit the byte order, a slice returned by ReadBytes has no spare capacity inside the reader's data, Bitmap round trip (also into a reused scratch buffer full of one-bits) and 8*len bits, and goroutines doing parallel ReadAt on one reader and on clones under the -race build. Held on what was observed.",
  "Readings of the short-read and Seek-beyond-end cases are listed in the evidence assumptions. Race clause rests on the Go race detector's happens-before analysis of the executions produced.",
  "DESIGN.md §4 C19")
 CHECKS["C02"] = (
